@@ -136,8 +136,9 @@ def _fresh_fields(kind, total, lo_year=1, hi_year=9999, date=True):
 class SymDT(Sym):
     pytype = datetime.datetime
 
-    def __init__(self, fields=None, epoch=None, tz=None):
-        self._f, self._e, self.tz = fields, epoch, tz
+    def __init__(self, fields=None, epoch=None, tz=None, fold=0):
+        # fold (PEP 495) is concrete; like python, results of arithmetic carry fold 0
+        self._f, self._e, self.tz, self.fold = fields, epoch, tz, fold
 
     def epoch(self):
         if self._e is None:
@@ -187,7 +188,9 @@ def mk_datetime(year, month=None, day=None, hour=0, minute=0, second=0, microsec
     _chk(z3.And(M >= 0, M <= 59), "minute must be in 0..59")
     _chk(z3.And(S >= 0, S <= 59), "second must be in 0..59")
     _chk(z3.And(us >= 0, us < US), "microsecond must be in 0..999999")
-    return SymDT(fields=(y, mo, d, H, M, S, us), tz=tzinfo)
+    if isinstance(fold, Sym):
+        raise Unsupported("symbolic fold")
+    return SymDT(fields=(y, mo, d, H, M, S, us), tz=tzinfo, fold=fold)
 
 
 def mk_time(hour=0, minute=0, second=0, microsecond=0, tzinfo=None, *, fold=0):
@@ -422,10 +425,11 @@ def _dt_replace(v, **kw):
         f = list(v.fields())
         idx = dict(year=0, month=1, day=2, hour=3, minute=4, second=5, microsecond=6)
         tz = kw.pop("tzinfo", v.tz)
+        fold = kw.pop("fold", v.fold)
         for k, x in kw.items():
             f[idx[k]] = T(x)
-        return mk_datetime(*[SymInt(t) for t in f], tzinfo=tz)
-    return SymDT(fields=v._f, epoch=v._e, tz=kw["tzinfo"])
+        return mk_datetime(*[SymInt(t) for t in f], tzinfo=tz, fold=fold)
+    return SymDT(fields=v._f, epoch=v._e, tz=kw["tzinfo"], fold=v.fold)
 
 
 def _time_replace(v, **kw):
@@ -534,6 +538,8 @@ def _attr(o, name):
             return SymInt(o.fields()[_DT_IDX[name]])
         if name == 'tzinfo':
             return o.tz
+        if name == 'fold':
+            return o.fold
         if name in _DT_METHODS:
             return rt.BoundModel(_DT_METHODS[name], o)
         if name == '__class__':
@@ -597,8 +603,8 @@ def _conc(v, model):
         tz = _conc(v.tz, model) if isinstance(v.tz, Sym) else v.tz
         if v._f is not None:
             y, mo, d, H, M, S, us = [ev(t) for t in v._f]
-            return datetime.datetime(y, mo, d, H, M, S, us, tzinfo=tz)
-        return (_EPOCH0 + datetime.timedelta(microseconds=ev(v._e))).replace(tzinfo=tz)
+            return datetime.datetime(y, mo, d, H, M, S, us, tzinfo=tz, fold=v.fold)
+        return (_EPOCH0 + datetime.timedelta(microseconds=ev(v._e))).replace(tzinfo=tz, fold=v.fold)
     if isinstance(v, SymDate):
         return datetime.date(ev(v.y), ev(v.mo), ev(v.d))
     if isinstance(v, SymTime):
